@@ -452,6 +452,36 @@ impl C17 {
             lib.dep_order().map(|v| v.iter().map(|p| Self::idx_of(&names, &p.read().unwrap().name)).collect::<Vec<usize>>()).map_err(|e| format!("{e:?}"))
         });
         self.judge(key, ["tetris-dep_order", "tetris-dep_order+abstract-only-sinks", "tetris-dep_order+both-views"][variant as usize], g, listing, res, cx);
+        // the same library object ordered again after an edit that keeps the number of cells: one more instance
+        // (the first edge i -> j, i != j, the graph does not have, from a cell that has a layout)
+        {
+            let mut edit: Option<(usize, usize)> = None;
+            'outer: for i in 0..g.n {
+                for j in 0..g.n {
+                    if i != j && g.adj[i] & (1 << j) == 0 && ptrs[i].read().unwrap().layout.is_some() {
+                        edit = Some((i, j));
+                        break 'outer;
+                    }
+                }
+            }
+            if let Some((i, j)) = edit {
+                let inst = tetris::instance::Instance { inst_name: format!("late{i}_{j}"), cell: ptrs[j].clone(), loc: (i as isize, j as isize).into(), reflect_horiz: false, reflect_vert: false };
+                ptrs[i].write().unwrap().layout.as_mut().unwrap().instances.add(inst);
+                let mut g2 = Graph { n: g.n, adj: g.adj };
+                g2.adj[i] |= 1 << j;
+                cx.stats.executions += 1;
+                let res = guard(|| {
+                    lib.dep_order().map(|v| v.iter().map(|p| Self::idx_of(&names, &p.read().unwrap().name)).collect::<Vec<usize>>()).map_err(|e| format!("{e:?}"))
+                });
+                self.judge(key, "tetris-dep_order-after-an-edit", &g2, listing, res, cx);
+                cx.tag("tetris-order-after-edit");
+                // undo the edit for the remaining orderers of this case
+                let mut c = ptrs[i].write().unwrap();
+                let lay = c.layout.as_mut().unwrap();
+                let keep: Vec<_> = lay.instances.iter().filter(|p| !p.read().unwrap().inst_name.starts_with("late")).cloned().collect();
+                lay.instances = keep.into();
+            }
+        }
         let res = guard(|| {
             tetris::conv::proto::ProtoExporter::export(&lib).map(|p| p.cells.iter().map(|c| Self::idx_of(&names, &c.name)).collect::<Vec<usize>>()).map_err(|e| format!("{e:?}"))
         });
@@ -628,7 +658,7 @@ impl Driver for C17 {
         let m = tier.pick(3, 4);
         Describe {
             rule: format!(
-                "generic utils::DepOrder: every labelled digraph on 1..=4 nodes including self-loops (2^(n*n)) x every ordered non-empty sub-list of the nodes as the item slice (so reachable != all); every loop-free digraph on 5 nodes (2^20) x {} listing orders. Embedded orderers through public entry points, every digraph on 1..={m} nodes with self-loops x every listing permutation, edges realised as instances / SREF+AREF / relative placements, raw and tetris graphs additionally with every sink cell abstract-only (no layout view) and with every cell holding both an abstract and a layout view: raw DepOrder::order and Library::to_proto (cell list order), Library::from_gds (imported cell order), tetris Library::dep_order, tetris ProtoExporter::export, Placer::place (cell graph), and Placer::place over every functional relation graph on 1..={m} instances ((n+1)^n: chains, stars, trees, self-loops, cycles) x every listing permutation, each also with the last listed instance present but not listed in the layout (reachable only through a relation). A state is (orderer, graph, listing); non-trivial = graph has at least one edge. Oracle: reachable set by DFS, cycle by Kahn elimination; Ok order must be exactly the reachable set, duplicate-free, every node after all its dependencies; reachable cycle => Err.",
+                "generic utils::DepOrder: every labelled digraph on 1..=4 nodes including self-loops (2^(n*n)) x every ordered non-empty sub-list of the nodes as the item slice (so reachable != all); every loop-free digraph on 5 nodes (2^20) x {} listing orders. Embedded orderers through public entry points, every digraph on 1..={m} nodes with self-loops x every listing permutation, edges realised as instances / SREF+AREF / relative placements, raw and tetris graphs additionally with every sink cell abstract-only (no layout view) and with every cell holding both an abstract and a layout view: raw DepOrder::order and Library::to_proto (cell list order), Library::from_gds (imported cell order), tetris Library::dep_order (and once more on the same library object after one more instance was added), tetris ProtoExporter::export, Placer::place (cell graph), and Placer::place over every functional relation graph on 1..={m} instances ((n+1)^n: chains, stars, trees, self-loops, cycles) x every listing permutation, each also with the last listed instance present but not listed in the layout (reachable only through a relation). A state is (orderer, graph, listing); non-trivial = graph has at least one edge. Oracle: reachable set by DFS, cycle by Kahn elimination; Ok order must be exactly the reachable set, duplicate-free, every node after all its dependencies; reachable cycle => Err.",
                 if tier.is_thorough() { "all 120" } else { "8 (identity, reverse, 4 rotations, one shuffle)" }
             ),
             assumptions: vec!["Placer::place over a cell graph returns the placed library, not the cell order: only Ok/Err and the cell set are judged there; over a relation graph the placed layout lists its instances in placement order, which is judged like every other ordering".into()],
@@ -845,7 +875,7 @@ impl Driver for C17 {
         None
     }
     fn guards(&self, tier: Tier, stats: &Stats, _d: u64) -> Result<(), String> {
-        require_tags(stats, &["raw-abstract-only-sinks", "tetris-abstract-only-sinks", "raw-both-views", "tetris-both-views", "part-g", "part-g-n4", "part-g-n5", "part-r-n3", "part-d-n3", "part-t-n3", "part-p-n3", "place-order-unlisted-target", "chain"])?;
+        require_tags(stats, &["raw-abstract-only-sinks", "tetris-abstract-only-sinks", "raw-both-views", "tetris-both-views", "tetris-order-after-edit", "part-g", "part-g-n4", "part-g-n5", "part-r-n3", "part-d-n3", "part-t-n3", "part-p-n3", "place-order-unlisted-target", "chain"])?;
         if tier.is_thorough() {
             require_tags(stats, &["part-r-n4", "part-d-n4", "part-t-n4", "part-p-n4"])?;
         }
